@@ -19,8 +19,194 @@ func init() {
 		Run:  ruleCursorReport})
 }
 
+// steppingFuncs: functions of the collection package that step a Cursor parameter (directly or through another such function).
+func steppingFuncs(c *Ctx) map[*types.Func]bool {
+	out := map[*types.Func]bool{}
+	for changed := true; changed; {
+		changed = false
+		for _, fn := range c.AllFuncs("internal/collection") {
+			if out[fn.Obj] {
+				continue
+			}
+			info := fn.Info()
+			hit := false
+			ast.Inspect(fn.Decl.Body, func(x ast.Node) bool {
+				call, ok := x.(*ast.CallExpr)
+				if !ok {
+					return true
+				}
+				if se, ok := ast.Unparen(call.Fun).(*ast.SelectorExpr); ok && se.Sel.Name == "Step" {
+					if tv, ok := info.Types[se.X]; ok && isNamedType(tv.Type, colPath, "Cursor") {
+						hit = true
+					}
+				}
+				if f := callee(info, call); f != nil && out[f] {
+					hit = true
+				}
+				return true
+			})
+			if hit && recvNamed(fn.Obj) == nil {
+				out[fn.Obj] = true
+				changed = true
+			}
+		}
+	}
+	return out
+}
+
+// stepExactlyOnce runs a small forward dataflow over the callback: the state is a set of triples
+// (steps ∈ {0,1,2+}, user iterator called, left through the skip edge).
+func stepExactlyOnce(info *types.Info, lfg *FlowGraph, lit *ast.FuncLit, cursorObj, iterObj, offsetObj types.Object, stepping map[*types.Func]bool) string {
+	type st = uint16 // bitset over 12 states: steps*4 + called*2 + skipped
+	enc := func(steps, called, skipped int) st { return 1 << uint(steps*4+called*2+skipped) }
+	isStep := func(n ast.Node) int {
+		k := 0
+		inspectNoLit(n, func(x ast.Node) bool {
+			call, ok := x.(*ast.CallExpr)
+			if !ok {
+				return true
+			}
+			if se, ok := ast.Unparen(call.Fun).(*ast.SelectorExpr); ok && se.Sel.Name == "Step" {
+				if id, ok := ast.Unparen(se.X).(*ast.Ident); ok && info.ObjectOf(id) == cursorObj {
+					k++
+				}
+			}
+			if f := callee(info, call); f != nil && stepping[f] {
+				for _, a := range call.Args {
+					if id, ok := ast.Unparen(a).(*ast.Ident); ok && info.ObjectOf(id) == cursorObj {
+						k++
+						break
+					}
+				}
+			}
+			return true
+		})
+		return k
+	}
+	isIter := func(n ast.Node) bool {
+		hit := false
+		inspectNoLit(n, func(x ast.Node) bool {
+			if call, ok := x.(*ast.CallExpr); ok {
+				if id, ok := ast.Unparen(call.Fun).(*ast.Ident); ok && info.ObjectOf(id) == iterObj {
+					hit = true
+				}
+			}
+			return true
+		})
+		return hit
+	}
+	apply := func(s st, n ast.Node) (st, string) {
+		k := isStep(n)
+		it := isIter(n)
+		if k == 0 && !it {
+			return s, ""
+		}
+		var out st
+		msg := ""
+		for steps := 0; steps < 3; steps++ {
+			for called := 0; called < 2; called++ {
+				for skipped := 0; skipped < 2; skipped++ {
+					if s&enc(steps, called, skipped) == 0 {
+						continue
+					}
+					ns, nc := steps+k, called
+					if ns > 2 {
+						ns = 2
+					}
+					if it {
+						if ns != 1 {
+							msg = fmt.Sprintf("the user iterator can be called after %d cursor steps for the item (exactly one is required)", ns)
+						}
+						nc = 1
+					}
+					out |= enc(ns, nc, skipped)
+				}
+			}
+		}
+		return out, msg
+	}
+	isSkipEdge := func(b *cfg.Block, si int) bool {
+		for _, f := range lfg.edgeFacts(b, si) {
+			be, ok := ast.Unparen(f.E).(*ast.BinaryExpr)
+			if !ok || f.Tag != nil {
+				continue
+			}
+			var r ast.Expr
+			switch {
+			case be.Op == token.LEQ && !f.Neg, be.Op == token.GTR && f.Neg:
+				r = be.Y
+			case be.Op == token.GEQ && !f.Neg, be.Op == token.LSS && f.Neg:
+				r = be.X
+			default:
+				continue
+			}
+			if id, ok := ast.Unparen(r).(*ast.Ident); ok && info.ObjectOf(id) == offsetObj {
+				return true
+			}
+		}
+		return false
+	}
+	in := map[int32]st{0: enc(0, 0, 0)}
+	work := []*cfg.Block{lfg.G.Blocks[0]}
+	problem := ""
+	for len(work) > 0 {
+		b := work[0]
+		work = work[1:]
+		s := in[b.Index]
+		for _, n := range b.Nodes {
+			var m string
+			s, m = apply(s, n)
+			if m != "" && problem == "" {
+				problem = m
+			}
+			if _, ok := n.(*ast.ReturnStmt); ok {
+				for steps := 0; steps < 3; steps++ {
+					for called := 0; called < 2; called++ {
+						for skipped := 0; skipped < 2; skipped++ {
+							if s&enc(steps, called, skipped) == 0 {
+								continue
+							}
+							switch {
+							case skipped == 1 && steps != 0:
+								problem = "an item skipped by the offset test can step the cursor: the skipped prefix was already counted by cursor.Step(offset), so the reported cursor runs ahead and the next page skips entries"
+							case skipped == 1 && called == 1:
+								problem = "an item skipped by the offset test can still reach the user iterator"
+							case skipped == 0 && steps == 0:
+								problem = "an item that passes the offset test can leave the callback without stepping the cursor: the reported cursor lags and the next page repeats entries"
+							case steps >= 2:
+								problem = "an item can step the cursor more than once"
+							}
+						}
+					}
+				}
+			}
+		}
+		for si, sc := range b.Succs {
+			out := s
+			if len(b.Succs) == 2 && isSkipEdge(b, si) {
+				var o2 st
+				for i := uint(0); i < 12; i++ {
+					if out&(1<<i) != 0 {
+						o2 |= 1 << (i | 1)
+					}
+				}
+				out = o2
+			}
+			if in[sc.Index]|out != in[sc.Index] {
+				in[sc.Index] |= out
+				work = append(work, sc)
+			} else if _, seen := in[sc.Index]; !seen {
+				in[sc.Index] = out
+				work = append(work, sc)
+			}
+		}
+	}
+	return problem
+}
+
 func ruleCursorProtocol(c *Ctx) {
 	n := 0
+	stepping := steppingFuncs(c)
 	for _, fn := range c.AllFuncs("internal/collection") {
 		if recvNamed(fn.Obj) == nil || recvNamed(fn.Obj).Obj().Name() != "Collection" {
 			continue
@@ -177,6 +363,11 @@ func ruleCursorProtocol(c *Ctx) {
 				if !nsOK {
 					problems = append(problems, "nextStep(count, cursor, deadline) does not lie between the skip test and the user iterator")
 				}
+			}
+			// exactly-once: along every path through the callback the cursor is stepped 0 times when the item
+			// is skipped by the offset test, and exactly once otherwise, before the user iterator is called
+			if msg := stepExactlyOnce(info, lfg, lit, cursorObj, iterObj, offsetObj, stepping); msg != "" {
+				problems = append(problems, msg)
 			}
 			if len(problems) == 0 {
 				c.ok(key, lit.Pos(), true, "count++ → skip while count <= offset → nextStep → user iterator")
